@@ -33,6 +33,14 @@ TARGETS = [
     ("pams/order.py", "Cancel", "agent_id"),
     ("pams/order.py", "Cancel", "market_id"),
     ("pams/order.py", "Cancel", "check_system_acceptable"),
+    ("pams/logs/base.py", "Log", "read_and_write"),
+    ("pams/logs/base.py", "Log", "read_and_write_with_direct_process"),
+    ("pams/logs/base.py", "Logger", "write"),
+    ("pams/logs/base.py", "Logger", "bulk_write"),
+    ("pams/logs/base.py", "Logger", "write_and_direct_process"),
+    ("pams/logs/base.py", "Logger", "bulk_write_and_direct_process"),
+    ("pams/logs/base.py", "Logger", "_process"),
+    ("pams/logs/base.py", "Logger", "process"),
     ("pams/logs/base.py", "OrderLog", "__init__"),
     ("pams/logs/base.py", "CancelLog", "__init__"),
     ("pams/logs/base.py", "ExecutionLog", "__init__"),
@@ -403,7 +411,7 @@ def wrap(s, width=110):
     return "\n      ".join(textwrap.wrap(s, width=width, break_long_words=False, break_on_hyphens=False))
 
 
-MRO_ROOTS = ("Market", "Order", "Cancel", "Agent")
+MRO_ROOTS = ("Market", "Order", "Cancel", "Agent", "Log")
 
 
 def class_mros():
